@@ -24,23 +24,31 @@ def find(prog, field, trait, method, **kw):
     return n
 
 
-def run(prog, name, args, refs=False, **opts):
-    """execute MIR function `name`; with refs=True every argument is passed as `&arg` (methods taking &self)."""
+def run(prog, name, args, refs=False, crate="math", subst=None, **opts):
+    """execute MIR function `name` (looked up in `crate`'s dump first); with refs=True every argument is passed as
+    `&arg` (methods taking &self / &mut self: the final values are in ex.final_env['_1'..])."""
     ex = X.Executor(prog, **{k: v for k, v in opts.items() if k != "watch"})
     ex.watch = set(opts.get("watch", ()))
-    if name not in prog.fns:
+    fn = prog.fn(name, crate)
+    if fn is None:
         raise NotEncodable("no MIR body for " + name)
+    if subst:
+        st = X.State([], ())
+        st, ret = ex._invoke(st, fn, args, subst, [])
+        if st is None:
+            raise NotEncodable(name + ": every path panics")
+        return ex, ret
     if refs:
         env = {f"_{i + 1}": a for i, a in enumerate(args)}
         fr = X.Frame(X.Fn("<harness>", [], "()", "verif"), env)
         st = X.State([fr], ())
-        st, ret = ex._invoke(st, prog.fns[name], [X.Ref(0, f"_{i + 1}", ()) for i in range(len(args))], {}, [])
+        st, ret = ex._invoke(st, fn, [X.Ref(0, f"_{i + 1}", ()) for i in range(len(args))], {}, [])
         if st is None:
             raise NotEncodable(name + ": every path panics")
         ex.final_env = st.frames[0].env
         ex.final_pc = st.pc
     else:
-        ret = ex.call_fn(name, args)
+        ret = ex.call_fn(name, args, crate=crate)
     return ex, ret
 
 
@@ -70,3 +78,21 @@ def short_fns(ex):
             h = f"{m.group(1)}:{m.group(2)}::{m.group(3)}"
         out.append(h)
     return out
+
+
+def scalar_const(prog, path, crate="math"):
+    """value of a scalar const item, by the path a use site would print (e.g. field::f62::R3)"""
+    hit = prog.lookup_const(path, crate)
+    if hit is None:
+        raise NotEncodable("const " + path + " not found in the MIR dump")
+    item = prog.crate_consts[hit[1]][hit[0]]
+    if not isinstance(item, tuple):
+        raise NotEncodable("const " + path + " is not a scalar literal")
+    return item[0]
+
+
+def require_trivial(ex, what=""):
+    """for builds that emit no no-panic query: every collected assertion must have folded to true at translation time"""
+    for pc, cond, msg, fn in ex.obligations:
+        if S.Implies(S.And(*pc), cond) is not S.TRUE:
+            raise NotEncodable(f"{what}: non-trivial panic condition left unaccounted: {fn}: {msg}")
